@@ -20,7 +20,7 @@ func init() {
 	})
 	register("C05", &propDef{
 		Title: "Pack never leaks outside content and always emits a slug Unpack accepts",
-		Rules: []func(*Checker){ruleC05Link, ruleC05Deref, ruleDerefHeader("C05.derefheader"), ruleC05Resolve("C05.resolve"), ruleNestedWalk("C05.nested"), rulePredSound("C05.pred"), ruleC05Pos, ruleC04Accept2("C05.accept"), rulePackerWriters("C05.allowlist"), ruleAllowBase("C05.allowbase"), ruleC04Relative("C05.relative"),
+		Rules: []func(*Checker){ruleC05Link, ruleC05Deref, ruleDerefHeader("C05.derefheader"), ruleC05Resolve("C05.resolve"), ruleNestedWalk("C05.nested"), ruleWalkRoles("C05.roles"), rulePredSound("C05.pred"), ruleC05Pos, ruleC04Accept2("C05.accept"), rulePackerWriters("C05.allowlist"), ruleAllowBase("C05.allowbase"), ruleC04Relative("C05.relative"),
 			aliasRuleFiltered(ruleC16Readlink, "C16.readlink", "C05.chain", 1, func(o Oblig) bool { return !strings.Contains(o.Key, "(*slug.Packer).Pack/") })},
 		NotDecided: []string{
 			"content equality of dereferenced copies",
@@ -407,6 +407,24 @@ func ruleC04Accept2(id string) func(*Checker) {
 			}
 		}
 		c.check(nTrue > 0 && rootSeen, id, gname, "accepts inside root", p.Pos(g.Pos()), "an accepting return is rooted at the validator's root parameter", "no accepting return compares against the root parameter")
+		// the root as the caller spelled it is used for one thing only: to be made absolute
+		if len(g.Params) >= 3 {
+			rootP := g.Params[len(g.Params)-3]
+			if refs := rootP.Referrers(); refs != nil {
+				for _, r := range *refs {
+					okUse := false
+					switch x := r.(type) {
+					case *ssa.DebugRef, *ssa.MakeInterface:
+						okUse = true // error message formatting
+					case *ssa.Call:
+						okUse = isFunc(calleeObj(x), "path/filepath", "Abs") || isFunc(calleeObj(x), "path/filepath", "EvalSymlinks") || isFunc(calleeObj(x), "path/filepath", "Clean")
+					case *ssa.Store:
+						_, okUse = x.Addr.(*ssa.Alloc) // spilled into its own cell; an element of an argument list is a use
+					}
+					c.check(okUse, id, gname, "root parameter only made absolute", p.Pos(r.Pos()), "used as the argument of filepath.Abs (and in messages)", "the root as the caller spelled it is compared or joined directly, next to values built on its absolute form: with a relative destination, or one ending in a separator, in-tree links (and a link to the root itself) no longer match and are refused")
+				}
+			}
+		}
 		// relative targets are joined onto the directory of the link's position
 		relOK := false
 		eachInstr(g, func(in ssa.Instruction) {
@@ -473,6 +491,28 @@ func ruleAllowBase(id string) func(*Checker) {
 					c.check(bad == "", id, p.FuncName(f), fmt.Sprintf("allow-list operand %d", n), p.Pos(in.Pos()), "built from the entry and the root only", "an allow-list entry is compared in a form that depends on the "+bad+" of the link being judged (a relative entry resolved against the link's directory instead of the root): the same entry allows different places for links at different depths")
 				}
 			})
+		}
+		// a relative entry is recognised by looking at the entry
+		for _, f := range sortedFuncs(p.family(g)) {
+			for _, ci := range callsTo(f, func(o *types.Func) bool { return isFunc(o, "path/filepath", "Join") }) {
+				ja := joinArgs(ci)
+				var entry ssa.Value
+				for _, a := range ja {
+					for w := range p.backSlice(a, 0) {
+						if fa, ok := w.(*ssa.FieldAddr); ok && fieldOf(fa) != nil && fieldOf(fa).Name() == "allowSymlinkTargets" {
+							entry = a
+						}
+					}
+				}
+				if entry == nil {
+					continue
+				}
+				_, notAbs := condEdges(f, func(v ssa.Value) bool {
+					cl, ok := v.(*ssa.Call)
+					return ok && isFunc(calleeObj(cl), "path/filepath", "IsAbs") && (canon(cl.Call.Args[0]) == canon(entry) || sameLoc(cl.Call.Args[0], entry))
+				})
+				c.check(len(notAbs) > 0 && guarded(ci.Block(), notAbs), id, p.FuncName(f), "relative entry recognised by testing the entry", p.Pos(ci.Pos()), "the join onto the root sits past !filepath.IsAbs(entry)", "an allow-list entry is joined onto the root on a test of something else than the entry (the link's target): an absolute entry is re-rooted below the root whenever the target is relative, so targets nobody allow-listed are accepted")
+			}
 		}
 		c.check(n > 0, id, p.FuncName(g), "allow-list comparisons", p.Pos(g.Pos()), fmt.Sprintf("%d comparison operand(s) built from allowSymlinkTargets", n), "no comparison against the allow-list found in the validator")
 	}
@@ -1297,6 +1337,45 @@ func ruleDerefHeader(id string) func(*Checker) {
 				if !tf {
 					missing = append(missing, "Typeflag")
 				}
+				// "anything but a regular file is left out" applies to what is not a directory: the directory
+				// case (the nested walk) is decided first
+				onInfo := func(v ssa.Value, method string) bool {
+					cl, ok := v.(*ssa.Call)
+					if !ok {
+						return false
+					}
+					if cl.Call.IsInvoke() && cl.Call.Method.Name() == method && (canon(cl.Call.Value) == sz.src || sameLoc(cl.Call.Value, sz.src)) {
+						return true
+					}
+					// info.Mode().IsRegular()
+					if isMethod(calleeObj(cl), "io/fs", "FileMode", method) && len(cl.Call.Args) > 0 {
+						if mc, ok := canon(cl.Call.Args[0]).(*ssa.Call); ok && mc.Call.IsInvoke() && mc.Call.Method.Name() == "Mode" && (canon(mc.Call.Value) == sz.src || sameLoc(mc.Call.Value, sz.src)) {
+							return true
+						}
+					}
+					return false
+				}
+				_, notReg := condEdges(fn, func(v ssa.Value) bool { return onInfo(v, "IsRegular") })
+				_, notDir := condEdges(fn, func(v ssa.Value) bool { return onInfo(v, "IsDir") })
+				for _, e := range notReg {
+					if r, ok := e.To().Instrs[len(e.To().Instrs)-1].(*ssa.Return); ok && mayReturnNilErr(r) {
+						c.check(len(notDir) > 0 && guarded(r.Block(), notDir), id, p.FuncName(fn), "special targets skipped only after the directory case", p.Pos(r.Pos()), "the not-a-regular-file skip sits past the not-a-directory edge", "a resolved target that is not a regular file is skipped before it was asked whether it is a directory: a dereferenced out-of-tree directory is silently left out of the slug")
+					}
+				}
+				for _, x := range byField["Mode"] {
+					if x.src == nil || !(x.src == sz.src || sameLoc(x.src, sz.src)) {
+						continue
+					}
+					perm := false
+					for w := range p.backSlice(x.st.Val, 0) {
+						if cl, ok := w.(*ssa.Call); ok && isMethod(calleeObj(cl), "io/fs", "FileMode", "Perm") {
+							perm = true
+						}
+					}
+					if !perm {
+						missing = append(missing, "Mode (not the permission bits: FileMode.Perm)")
+					}
+				}
 				c.check(len(missing) == 0, id, p.FuncName(fn), fmt.Sprintf("dereferenced entry %d takes the target's metadata", n), p.Pos(sz.st.Pos()), "Typeflag, ModTime, Mode and Size all set from the resolved target", "the header of a dereferenced link keeps the link's own "+strings.Join(missing, ", ")+" (not set from the resolved target where its Size is): the copy is shipped with the link's permission bits (0777) / timestamp / type")
 			}
 		}
@@ -1413,6 +1492,20 @@ func ruleC05Resolve(id string) func(*Checker) {
 				}
 				c.check(okA, id, name, fmt.Sprintf("next hop %d arguments", i), p.Pos(cl.Pos()), "(root, resolved path, hops+1) in the callee's parameter order", "the next hop is resolved with the wrong arguments ("+why+"): a chain of two links fails or resolves from the wrong place")
 			}
+			// what is handed back as the resolved path is the path that was examined
+			held := false
+			eachInstr(fn, func(in ssa.Instruction) {
+				st, ok := in.(*ssa.Store)
+				if !ok {
+					return
+				}
+				if fa, ok := st.Addr.(*ssa.FieldAddr); ok && isStringType(derefType(fa.Type())) {
+					if canon(st.Val) == canon(lst.Call.Args[0]) || sameLoc(st.Val, lst.Call.Args[0]) {
+						held = true
+					}
+				}
+			})
+			c.check(held, id, name, "result holds the examined path", p.Pos(lst.Pos()), "a field of the result is set to the very path handed to Lstat", "no field of the result holds the path that was examined (another same-typed variable — the root, the link's own path — is stored in its place): the caller walks the wrong directory, so the out-of-tree directory is left out, or the source is walked again")
 			c.check(len(isLink) > 0, id, name, "chains are followed", p.Pos(lst.Pos()), "the Lstat result is tested for ModeSymlink", "the resolved path is never tested for being a link itself: a link to a link is stored with the intermediate link's info and dropped from the slug")
 			for i, r := range successReturns(fn) {
 				if cl := callOf(canon(r.Results[0])); cl != nil && cl.Common().StaticCallee() == fn {
@@ -1682,6 +1775,189 @@ func ruleNestedWalk(id string) func(*Checker) {
 					c.check(j == i, id, p.FuncName(w), fmt.Sprintf("nested call passes %s on in its own position", prm.Name()), p.Pos(s.fac.Pos()), "same position", fmt.Sprintf("the captured parameter %s (position %d of the factory) is handed to the nested call as argument %d: two same-typed arguments have changed places", prm.Name(), j, i))
 				}
 			}
+		}
+	}
+}
+
+// capturedParamOf: v, inside a closure of g, is g's k-th parameter (captured by
+// value or through a once-written cell); -1 otherwise.
+func capturedParamOf(v ssa.Value, g *ssa.Function) int {
+	var b ssa.Value
+	switch x := canon(v).(type) {
+	case *ssa.Parameter:
+		b = x
+	case *ssa.FreeVar:
+		if r := resolveFreeVar(x); len(r) == 1 {
+			b = r[0]
+		}
+	case *ssa.UnOp:
+		if fv, ok := x.X.(*ssa.FreeVar); ok && x.Op == token.MUL {
+			if al, ok := rootCell(fv).(*ssa.Alloc); ok {
+				if ws := cellWrites(al); len(ws) == 1 {
+					b = ws[0].Val
+				}
+			}
+		}
+	}
+	for k, gp2 := range g.Params {
+		if b == ssa.Value(gp2) {
+			return k
+		}
+	}
+	return -1
+}
+
+// C05.roles — inside the pack walk, each of the three directories is used in
+// its own role.
+func ruleWalkRoles(id string) func(*Checker) {
+	return func(c *Checker) {
+		c.rule(id, "The pack-walk factory takes three directories of one type. Their roles are read off its call sites, not off their use: ROOT is the parameter the callback passes on unchanged to its nested call, SRC the one that receives the directory handed to filepath.Walk, DST the third. Inside the callback: the walked path is made relative to SRC; that is joined onto DST (the position in the archive); the position is made relative to ROOT (the entry name, which the ignore rules and the header get); links are validated with ROOT as root and resolved from the walked path; the nested call gets ROOT in ROOT's place and the position as DST. Any of these with another of the three (or the on-disk path for the position) compiles and passes every test that has no dereferenced directory.", 6)
+		p := c.P
+		var g, w *ssa.Function
+		var nested, nestedWalk *ssa.Call
+		for _, fn := range p.Funcs {
+			if fn.Package() == nil || fn.Package().Pkg.Path() != p.PkgPath("slug") || fn.Parent() == nil {
+				continue
+			}
+			for _, ci := range callsTo(fn, func(o *types.Func) bool { return isFunc(o, "path/filepath", "Walk") }) {
+				wc, ok := ci.(*ssa.Call)
+				if !ok || len(wc.Call.Args) < 2 {
+					continue
+				}
+				fc := callOf(canon(wc.Call.Args[1]))
+				if fc != nil && fc.Common().StaticCallee() == fn.Parent() {
+					g, w, nested, nestedWalk = fn.Parent(), fn, fc, wc
+				}
+			}
+		}
+		if g == nil {
+			c.pass(id, "-", "nested walk", "-", "no nested walk (no dereferenced directories): nothing to confuse")
+			return
+		}
+		name := p.FuncName(w)
+		root, src, dst := -1, -1, -1
+		for i, a := range nested.Call.Args {
+			if i >= len(g.Params) || !isStringType(g.Params[i].Type()) {
+				continue
+			}
+			switch {
+			case capturedParamOf(a, g) == i:
+				root = i
+			case canon(a) == canon(nestedWalk.Call.Args[0]) || sameLoc(a, nestedWalk.Call.Args[0]):
+				src = i
+			default:
+				dst = i
+			}
+		}
+		if root < 0 || src < 0 || dst < 0 {
+			c.fail(id, name, "roles", p.Pos(nested.Pos()), fmt.Sprintf("the roles of the factory's string parameters cannot be read off the nested call (passed on unchanged: %d, walked directory: %d, other: %d)", root, src, dst))
+			return
+		}
+		rn := func(k int) string { return g.Params[k].Name() }
+		if len(w.Params) == 0 {
+			return
+		}
+		pathPrm := w.Params[0]
+		// the chain
+		var rel1, rel2 *ssa.Call
+		var join *ssa.Call
+		for _, ci := range callsTo(w, func(o *types.Func) bool { return isFunc(o, "path/filepath", "Rel") }) {
+			if cl, ok := ci.(*ssa.Call); ok && canon(cl.Call.Args[1]) == ssa.Value(pathPrm) {
+				rel1 = cl
+			}
+		}
+		if rel1 == nil {
+			c.fail(id, name, "walked path made relative", p.Pos(w.Pos()), "no filepath.Rel of the walked path")
+			return
+		}
+		c.check(capturedParamOf(rel1.Call.Args[0], g) == src, id, name, "walked path relative to the walked directory", p.Pos(rel1.Pos()), "filepath.Rel("+rn(src)+", path)", "the walked path is made relative to something other than the directory being walked ("+rn(src)+")")
+		sub1 := extractOf(rel1, 0)
+		for _, ci := range callsTo(w, func(o *types.Func) bool { return isFunc(o, "path/filepath", "Join") }) {
+			cl, ok := ci.(*ssa.Call)
+			if !ok {
+				continue
+			}
+			ja := joinArgs(cl)
+			if len(ja) == 2 && canon(ja[1]) == sub1 {
+				join = cl
+				c.check(capturedParamOf(ja[0], g) == dst, id, name, "position = destination joined with the relative path", p.Pos(cl.Pos()), "filepath.Join("+rn(dst)+", relative path)", "the position in the archive is computed from something other than the destination directory ("+rn(dst)+"): entries of a dereferenced directory land at the slug root, or under the link's on-disk path")
+			}
+		}
+		if join == nil {
+			c.fail(id, name, "position computed", p.Pos(rel1.Pos()), "the relative path is never joined onto a destination")
+			return
+		}
+		for _, ci := range callsTo(w, func(o *types.Func) bool { return isFunc(o, "path/filepath", "Rel") }) {
+			if cl, ok := ci.(*ssa.Call); ok && cl != rel1 && canon(cl.Call.Args[1]) == ssa.Value(join) {
+				rel2 = cl
+				c.check(capturedParamOf(cl.Call.Args[0], g) == root, id, name, "entry name = position relative to the root", p.Pos(cl.Pos()), "filepath.Rel("+rn(root)+", position)", "the entry name is the position made relative to something other than the slug root ("+rn(root)+"): names come out as ../… paths, which Unpack refuses")
+			}
+		}
+		if rel2 == nil {
+			c.fail(id, name, "entry name computed", p.Pos(join.Pos()), "the position is never made relative to the root")
+			return
+		}
+		sub2 := extractOf(rel2, 0)
+		// what gets the entry name
+		fromSub2 := func(v ssa.Value) bool { return p.backSlice(v, 0)[sub2] }
+		for _, ci := range callsIn(w) {
+			cl, ok := ci.(*ssa.Call)
+			if !ok {
+				continue
+			}
+			h := cl.Common().StaticCallee()
+			if h == nil || !p.InModule(h) {
+				continue
+			}
+			// the ignore matcher: a module function taking a *Ruleset
+			takesRules := false
+			for _, a := range cl.Call.Args {
+				if isNamedT(derefType(a.Type()), "Ruleset") {
+					takesRules = true
+				}
+			}
+			if takesRules && h != g {
+				okArg := false
+				for _, a := range cl.Call.Args {
+					if !isStringType(a.Type()) {
+						continue
+					}
+					ca := canon(a)
+					if fromSub2(a) && ca != ssa.Value(join) && ca != ssa.Value(pathPrm) && ca != sub1 {
+						okArg = true
+					}
+				}
+				c.check(okArg, id, name, "ignore rules get the entry name#"+p.Pos(cl.Pos()), p.Pos(cl.Pos()), "the name relative to the root", "the ignore rules are matched against something other than the entry's name relative to the slug root (the absolute position, or the on-disk path): anchored rules (/foo.txt) stop matching")
+			}
+			// the link validator: (root, position, target)
+			if h.Signature.Results().Len() == 2 && isBoolType(h.Signature.Results().At(0).Type()) && isErrorType(h.Signature.Results().At(1).Type()) {
+				var strs []ssa.Value
+				for _, a := range cl.Call.Args {
+					if isStringType(a.Type()) {
+						strs = append(strs, a)
+					}
+				}
+				if len(strs) == 3 {
+					c.check(capturedParamOf(strs[0], g) == root, id, name, "links validated against the root", p.Pos(cl.Pos()), "validator("+rn(root)+", …)", "links are validated with something other than the slug root as root (the directory being walked, or the destination): inside a dereferenced directory an absolute target into that directory is kept, or an in-slug target is judged external")
+				}
+			}
+			// the resolver: reads the link at the walked path
+			if h != g && len(callsTo(h, func(o *types.Func) bool { return isFunc(o, "os", "Readlink") })) > 0 && h.Signature.Results().Len() == 2 {
+				okP := false
+				for _, a := range cl.Call.Args {
+					if canon(a) == ssa.Value(pathPrm) {
+						okP = true
+					}
+				}
+				c.check(okP, id, name, "external link resolved from the walked path", p.Pos(cl.Pos()), "resolver(…, path, …)", "the out-of-tree link is resolved from something other than the path where it lies on disk (its position in the archive): inside a dereferenced directory a relative link is then read from the wrong place")
+			}
+		}
+		// the nested call
+		if dst < len(nested.Call.Args) {
+			c.check(canon(nested.Call.Args[dst]) == ssa.Value(join), id, name, "nested walk placed at the link's position", p.Pos(nested.Pos()), "the position is handed to the nested walk as "+rn(dst), "the nested walk of a dereferenced directory is not placed at the link's position in the archive")
+		}
+		if root < len(nested.Call.Args) {
+			c.check(capturedParamOf(nested.Call.Args[root], g) == root, id, name, "nested walk keeps the root", p.Pos(nested.Pos()), rn(root)+" passed on", "the nested walk is given another directory as the slug root: its entries are named relative to the wrong place")
 		}
 	}
 }
